@@ -102,7 +102,7 @@ class G:
         if self.chance(0.7):
             return self.word()
         n = self.r.randint(1, 12)
-        alphabet = "abcXYZ019 ,=:/-_.%&;éß中\U0001f3b5\\"
+        alphabet = "abcXYZ019 ,=:/-_.%&;éß中\U0001f3b5\\\u0301\u200d'"
         s = "".join(self.pick(alphabet) for _ in range(n))
         if self.chance(0.15):
             s += self.pick(["\\", "\\\\", "dir\\"])       # RFC 8216 has no escapes: a backslash, also right before the closing quote, is an ordinary character
@@ -378,6 +378,8 @@ def gen_media(g, nseg=None, feature_p=0.35, max_formats=3, with_keys=True):
     if g.chance(0.2):
         unknown.append((n, "#EXT-X-TRAILER:1"))
     a["segs"] = segs
+    if segs and g.chance(0.06):
+        a["mseq"] = 2 ** 64 - len(segs)        # the last segment gets the number 2^64-1: still valid
     a["unknown"] = unknown
     # playlist-level tags may stand anywhere (RFC 8216 4.3.3): before which segment each one is written
     # (None = in the header / ENDLIST at the very end)
@@ -763,7 +765,7 @@ def gen_master(g, consistent=True):
             a["variants"].append(v)
     seen = set()
     for _ in range(g.pick([0, 0, 1, 2, 3])):
-        d = {"id": g.pick(["com.example.title", "com.example.lyrics", "a,b", "id3"]), "lang": g.pick([None, "en", "de", ""]),
+        d = {"id": g.pick(["com.example.title", "com.example.lyrics", "a,b", "id3", "id3-en", "com.example.title-de"]), "lang": g.pick([None, "en", "de", "", "US"]),
              "data": ("value", g.qstring()) if g.chance(0.6) else ("uri", g.uri())}
         if (d["id"], d["lang"]) in seen:
             continue
@@ -773,10 +775,14 @@ def gen_master(g, consistent=True):
         a["skeys"].append(gen_key(g))
     if a["skeys"] and g.chance(0.35):
         k2 = dict(a["skeys"][0])
-        if g.chance(0.5):
+        c3 = g.r.randrange(3)
+        if c3 == 0:
             k2["iv"] = None if k2["iv"] is not None else g.iv()
-        else:
+        elif c3 == 1:
             k2["format"] = {None: "identity", "identity": None}.get(k2["format"], None)
+        else:
+            # the same key offered with another list of format versions: two different tags, both kept
+            k2["versions"] = [1, 2, 5] if k2["versions"] != [1, 2, 5] else [3]
         a["skeys"].append(k2)
     for _ in range(g.pick([0, 0, 1, 2])):
         a["unknown"].append(g.pick(["#EXT-X-FOO:bar", "#EXT-UNKNOWN", "#EXT-X-CUSTOM:A=\"b,c\""] + NEAR_MISS_TAGS))
